@@ -2,7 +2,7 @@
   GfsModel.ExpectedSrc — per property, the digest of the fingerprints of the declarations of /repo its model and
   specification were written from (one hash per function / type / var / const with comments and layout not counted,
   one per C++ file; see tools/gofacts), recorded by tools/mkexpected.py when the model was last aligned with the
-  code (/repo at ae21c36). GfsGen/Facts.lean carries the digests re-extracted on every run; the theorems
+  code (/repo at eac8f2e). GfsGen/Facts.lean carries the digests re-extracted on every run; the theorems
   Cxx_source in GfsProps prove them equal. ExpectedSrc.json lists the hashes behind each digest.
 -/
 namespace Gfs
@@ -25,7 +25,7 @@ def expectedSourceDigestC15 : String := "59920030d386a55d"
 def expectedSourceDigestC16 : String := "59920030d386a55d"
 def expectedSourceDigestC17 : String := "6e5c96fd6f2ccc96"
 def expectedSourceDigestC18 : String := "5871c779f07e8a3f"
-def expectedSourceDigestC19 : String := "1a08c852f473af51"
+def expectedSourceDigestC19 : String := "81f79fed4b68d7e2"
 def expectedSourceDigestC20 : String := "658897532d70f619"
 
 end Gfs
